@@ -55,6 +55,7 @@ def model_skeletons() -> dict[str, dict]:
         {
             "NullStr": obj({"req-ns": {"type": ["string", "null"]}, "opt-ns": {"type": ["string", "null"]}, "only-null": {"type": "null"}}, ["req-ns"]),
             "NullInt": obj({"reqNullInt": {"oneOf": [INT, {"type": "null"}]}, "optNullInt": {"anyOf": [{"type": "null"}, INT]}, "opt-null-date": {"oneOf": [DATE, {"type": "null"}]}}, ["reqNullInt"]),
+            "NullConst": obj({"req-nc": {"oneOf": [{"const": "fixed"}, {"type": "null"}]}, "opt-nc": {"anyOf": [{"type": "null"}, {"const": 7}]}, "optNullBool": {"type": ["boolean", "null"]}}, ["req-nc"], additionalProperties=False),
             "NullableRefs": obj(
                 {"req-m": {"oneOf": [ref("Leaf"), {"type": "null"}]}, "opt-m": {"oneOf": [{"type": "null"}, ref("Leaf")]}, "opt-l": {"type": ["array", "null"], "items": INT}},
                 ["req-m"],
@@ -244,6 +245,8 @@ def endpoint_skeletons() -> dict[str, dict]:
     S["bodies"] = doc(
         {"Leaf": leaf, "Form": obj({"f-a": STR, "fB": INT}, ["f-a"]), "Upload": obj({"up-file": {"type": "string", "format": "binary"}, "note": STR, "count": INT}, ["up-file"])},
         {
+            "/b/a-multi-shared": {"post": {"operationId": "postMultiShared", "requestBody": {"content": {"multipart/form-data": {"schema": ref("Form")}}}, "responses": {"204": {"description": "none"}}}},
+            "/b/json-shared": {"post": {"operationId": "postJsonShared", "requestBody": {"content": {"application/json": {"schema": ref("Form")}}}, "responses": {"204": {"description": "none"}}}},
             "/b/json": {"post": {"operationId": "postJson", "requestBody": {"required": True, "content": {"application/json": {"schema": ref("Leaf")}}}, "responses": {"204": {"description": "none"}}}},
             "/b/json-list": {"post": {"operationId": "postJsonList", "requestBody": {"content": {"application/json": {"schema": arr(ref("Leaf"))}}}, "responses": {"204": {"description": "none"}}}},
             "/b/vnd": {"put": {"operationId": "putVnd", "requestBody": {"content": {"application/vnd.skel+json": {"schema": ref("Leaf")}}}, "responses": {"204": {"description": "none"}}}},
@@ -273,6 +276,16 @@ def endpoint_skeletons() -> dict[str, dict]:
             "/r/vnd": {"get": {"operationId": "getVnd", "responses": {"200": jresp(ref("Leaf"), ct="application/vnd.skel+json; charset=utf-8")}}},
             "/r/union": {"get": {"operationId": "getUnion", "responses": {"200": jresp({"oneOf": [ref("Leaf"), ref("Err")]}), "400": jresp({"type": ["integer", "null"]})}}},
             "/r/ref": {"get": {"operationId": "getRefResp", "security": [{"k": []}], "responses": {"200": {"$ref": "#/components/responses/LeafResp"}, "500": {"$ref": "#/components/responses/Empty"}}}},
+            "/r/multi": {
+                "get": {
+                    "operationId": "getMultiMedia",
+                    "responses": {
+                        "200": {"description": "xml first", "content": {"application/xml": {"schema": ref("Leaf")}, "application/json": {"schema": ref("Leaf")}}},
+                        "201": {"description": "json first", "content": {"application/json": {"schema": INT}, "image/png": {"schema": {"type": "string", "format": "binary"}}}},
+                        "202": {"description": "text after unsupported", "content": {"application/pdf": {}, "text/plain": {"schema": STR}}},
+                    },
+                }
+            },
             "/r/none": {"get": {"operationId": "getNone", "responses": {"204": {"description": "none"}}}},
             "/r/shared1": {"get": {"operationId": "getSharedOne", "responses": {"200": jresp(INT), "404": {"$ref": "#/components/responses/NotFound"}}}},
             "/r/shared2": {"get": {"operationId": "getSharedTwo", "responses": {"404": {"$ref": "#/components/responses/NotFound"}, "409": {"$ref": "#/components/responses/NotFound"}}}},
